@@ -7,3 +7,7 @@ func runC12Server(rcx *RunCtx)     { rcx.Index = c12Cases() + 2*rcx.Index; runC1
 func runC13Server(rcx *RunCtx)     { rcx.Index = c13Cases() + 2*rcx.Index; runC13(rcx) }
 
 func runC02Client(rcx *RunCtx) { rcx.Index = rcx.Index*4 + 1; runC02(rcx) }
+
+func runC17Client(rcx *RunCtx) { rcx.Index = rcx.Index*5 + 1; runC17(rcx) }
+
+func runC18Client(rcx *RunCtx) { rcx.Index = rcx.Index*4 + 1; runC18(rcx) }
